@@ -21,6 +21,51 @@ class BuildError(Exception):
     pass
 
 
+class Hang(Exception):
+    """an implementation call did not return within its time limit"""
+
+
+import contextlib, signal
+
+
+_limits = []      # stack of (deadline, what): limits nest, the innermost deadline is armed
+
+
+def _arm():
+    if not _limits:
+        signal.setitimer(signal.ITIMER_REAL, 0)
+        return
+    deadline = min(d for d, _ in _limits)
+    signal.setitimer(signal.ITIMER_REAL, max(0.001, deadline - time.time()))
+
+
+def _on_alarm(signum, frame):
+    now = time.time()
+    due = [w for d, w in _limits if d <= now + 0.01]
+    what = due[-1] if due else (_limits[-1][1] if _limits else 'call')
+    raise Hang(f'{what} did not return within its time limit')
+
+
+@contextlib.contextmanager
+def time_limit(seconds, what='call'):
+    """raise Hang in the main thread if the block runs longer (pure-Python loops are interruptible)"""
+    import threading
+    if threading.current_thread() is not threading.main_thread():
+        yield
+        return
+    if not _limits:
+        signal.signal(signal.SIGALRM, _on_alarm)
+    entry = (time.time() + seconds, what)
+    _limits.append(entry)
+    _arm()
+    try:
+        yield
+    finally:
+        if entry in _limits:
+            _limits.remove(entry)
+        _arm()
+
+
 def sh(cmd, cwd=None, timeout=1800, env=None):
     p = subprocess.run(cmd, cwd=cwd, shell=isinstance(cmd, str), timeout=timeout,
                        stdout=subprocess.PIPE, stderr=subprocess.STDOUT, text=True, env=env)
@@ -311,9 +356,15 @@ class Runner:
     def call(self, cmd, arg):
         if self.p is None or self.p.poll() is not None:
             self.start()
-        self.p.stdin.write(cmd + ' ' + enc(arg) + '\n')
-        self.p.stdin.flush()
-        line = self.p.stdout.readline()
+        try:
+            with time_limit(45, f"model runner {self.area}.{cmd}"):
+                self.p.stdin.write(cmd + ' ' + enc(arg) + '\n')
+                self.p.stdin.flush()
+                line = self.p.stdout.readline()
+        except Hang:
+            self.p.kill()
+            self.p = None
+            raise
         if not line:
             raise BuildError(f'model runner {self.area} died on {cmd}')
         self.calls += 1
